@@ -3,6 +3,9 @@ from __future__ import annotations
 from typing import Callable
 
 from ._type_qualifier import Port, Generic
+from ._bit_vector import BitVector
+from ._unsigned import Unsigned
+from ._signed import Signed
 from ._collect_ast_and_scope import FunctionDefinition, InstantiatedFunction
 from cohdl.utility.source_location import SourceLocation
 from ._intrinsic import _intrinsic, _intrinsic_replacement, _IntrinsicInlineEntity
@@ -306,6 +309,20 @@ class Entity(Block):
                     or value_width is None
                     or port_width == value_width
                 ), f"width of the object connected to port '{name}' ({value_width}) does not match the width of the port ({port_width})"
+
+                # The port map contains the name of the connected object (and a slice/index),
+                # no type conversions. The VHDL type of a vector is determined by the declared
+                # type of the root object: it has to be the type of the port.
+                port_type = type(Port.decay(info.ports[name]))
+                value_root = getattr(value, "_root", None)
+
+                if issubclass(port_type, BitVector) and value_root is not None:
+                    root_type = type(Port.decay(value_root))
+
+                    for vector_type in (Unsigned, Signed):
+                        assert issubclass(port_type, vector_type) == issubclass(
+                            root_type, vector_type
+                        ), f"the object connected to port '{name}' is declared as {root_type}, the port as {port_type}"
 
                 self._cohdl_port_definitions[name] = value
             elif name in info.generics:
